@@ -1585,3 +1585,67 @@ func runC01PerOperand(c *Ctx) {
 		c.Errorf("only %d per-operand function literals found, expected >= 3", n)
 	}
 }
+
+func init() {
+	register(&Rule{
+		ID:    "C20.operanddim",
+		Props: []string{"C20", "C02"},
+		Doc:   "an operand's dimension that selects a formula or a DE-9IM pattern ignores EMPTY members: Geometry.Dimension() reports the highest dimension of a collection's members including empty ones, so outside the Dimension methods themselves it may be applied only to a value known not to be a collection (dominating !IsGeometryCollection(), a leaf handed out by walk, or inside the ignore-empties helper) — otherwise GEOMETRYCOLLECTION(POINT(1 1),POLYGON EMPTY) is treated as areal",
+		Floor: 3,
+		Run:   runC20OperandDim,
+	})
+}
+
+func runC20OperandDim(c *Ctx) {
+	n := 0
+	for _, f := range c.P.Funcs {
+		if pkgOf(f) != "geom" {
+			continue
+		}
+		root := FuncName(rootFunc(f))
+		if root == "geom.(Geometry).Dimension" || root == "geom.(GeometryCollection).Dimension" {
+			continue
+		}
+		fn := FuncName(f)
+		eachCall(f, func(call ssa.CallInstruction) {
+			if calleeName(call) != "geom.(Geometry).Dimension" {
+				return
+			}
+			n++
+			recv := call.Common().Args[0]
+			rs, _ := accessPath(recv)
+			construct := "Dimension() of " + trunc(rs)
+			// a leaf handed out by walk: the parameter of a function literal passed to walk
+			if par, ok := stripLoad(recv).(*ssa.Parameter); ok && f.Parent() != nil {
+				isWalkLit := false
+				eachCall(f.Parent(), func(pc ssa.CallInstruction) {
+					if strings.HasSuffix(calleeName(pc), ").walk") {
+						for _, a := range pc.Common().Args {
+							if mc, ok := a.(*ssa.MakeClosure); ok && mc.Fn == ssa.Value(f) {
+								isWalkLit = true
+							}
+						}
+					}
+				})
+				if isWalkLit && par == f.Params[0] {
+					c.OK(call.Pos(), fn, construct, "a leaf handed out by walk (never a collection)")
+					return
+				}
+			}
+			for _, g := range guardsAt(call) {
+				gc, ok := g.Cond.(*ssa.Call)
+				if !ok || len(gc.Call.Args) != 1 || calleeName(gc) != "geom.(Geometry).IsGeometryCollection" || g.Truth {
+					continue
+				}
+				if gc.Call.Args[0] == recv || sameValue(gc.Call.Args[0], recv) || stripLoad(gc.Call.Args[0]) == stripLoad(recv) {
+					c.OK(call.Pos(), fn, construct, "dominated by !IsGeometryCollection()")
+					return
+				}
+			}
+			c.Bad(call.Pos(), fn, construct, "Dimension() is applied to a geometry that may be a collection: its EMPTY members count towards the result, so an empty member of a higher dimension changes the formula / pattern chosen for the whole operand (empty members must be transparent)")
+		})
+	}
+	if n < 3 {
+		c.Errorf("only %d Geometry.Dimension() call sites found, expected >= 3", n)
+	}
+}
